@@ -4,18 +4,19 @@ C17 — TLS always serves a loaded certificate that covers the requested name.
 
 Only the property theorems `C17_*` and their non-vacuity examples live here.
 
-Scope of the quantifiers (see `GoodName` / `GoodHost` in `Lemmas.lean`):
-* histories: every added certificate carries names that are non-empty, do not
-  start with `.` and contain no `/` (`GoodOp`). A name starting with `.` or
-  using the trie's `/regex/` syntax makes the real `TrieNode::insert` panic or
-  install a regex key; `C17_bad_name_panics` shows both in the model and the
-  harness replays them on the real code.
+Scope of the quantifiers:
+* histories: *all* op sequences. The names of an added certificate go through
+  `prepare` (= `CertifiedKeyWrapper::try_from`): lower-cased, one trailing dot
+  stripped, and the certificate is refused (state unchanged,
+  `C17_rejected_add_unchanged`) when a name is then empty, starts with `.` or
+  contains `/` — exactly the names the trie cannot hold as literal keys
+  (`validCertName_iff`), so no hypothesis on the names is left.
 * server names `N`: non-empty, not starting with `.` (`GoodHost`). rustls only
   hands validated DNS names to `resolve`.
 `covers`: a certificate name covers `N` when it is byte-equal to `N` or equal
 to `wildOf N` (`*` in place of the left-most label of `N`) — single-label
-wildcard, no apex match, no embedded wildcard, no case folding (as coded: the
-SNI reaches the trie already lower-cased by rustls).
+wildcard, no apex match, no embedded wildcard; the stored names are lower case
+and in relative form, like the SNI rustls hands over.
 -/
 set_option linter.unusedSimpArgs false
 set_option linter.unusedVariables false
@@ -30,15 +31,24 @@ def CertCovers (c : Cert) (N : Bytes) : Prop := ∃ name ∈ c.names, Covers nam
 
 -- ------------------------------------------------------------ invariant --
 
-/-- After every history of add / remove / replace (idempotent, absent or
-    unparsable old fingerprint, failing PEM included) the trie, the per-name
-    index and the store agree (`Agree`), and nothing panicked. -/
-theorem C17_agree_invariant (ops : List Op) (hops : ∀ op ∈ ops, GoodOp op) :
-    Agree (run init ops) :=
-  agree_run ops init agree_init hops
+/-- After every history of add / remove / replace (re-adds, refused names,
+    idempotent replace, absent or unparsable old fingerprint, failing PEM) the
+    trie, the per-name index and the store agree (`Agree`). -/
+theorem C17_agree_invariant (ops : List Op) : Agree (run init ops) :=
+  agree_run ops init agree_init
 
-theorem C17_no_panic (ops : List Op) (hops : ∀ op ∈ ops, GoodOp op) : (run init ops).dead = false :=
-  (C17_agree_invariant ops hops).a.alive
+/-- no history makes the resolver panic -/
+theorem C17_no_panic (ops : List Op) : (run init ops).dead = false :=
+  (C17_agree_invariant ops).a.alive
+
+/-- a certificate whose names `try_from` refuses leaves the resolver unchanged
+    (add and replace alike; the old certificate of the replace stays) -/
+theorem C17_rejected_add_unchanged (ops : List Op) (c : Cert) (old : Option Fp)
+    (h : prepare c = none) :
+    step (run init ops) (.add c) = (run init ops, .err) ∧
+    step (run init ops) (.replace old c) = (run init ops, .err) := by
+  have hd := C17_no_panic ops
+  simp [step, hd, h]
 
 -- ------------------------------------------------------------- resolve --
 
@@ -77,27 +87,24 @@ theorem resolve_sound_of_agree (re : Bytes → Bytes → Bool) {s : State} (h : 
     * or no stored certificate names `N` exactly, the wildcard `wildOf N` is one
       of its names, and no stored certificate carrying that wildcard expires
       later (wildcard only when there is no exact name). -/
-theorem C17_resolve_sound (re : Bytes → Bytes → Bool) (ops : List Op) (hops : ∀ op ∈ ops, GoodOp op)
+theorem C17_resolve_sound (re : Bytes → Bytes → Bool) (ops : List Op)
     (N : Bytes) (hN : GoodHost N) (fp : Fp) (hr : resolve re (run init ops) (some N) = .cert fp) :
     ∃ c, Stored (run init ops) c ∧ c.fp = fp ∧ CertCovers c N ∧
       ((N ∈ c.names ∧ ∀ c', Stored (run init ops) c' → N ∈ c'.names → c'.exp ≤ c.exp) ∨
        ((∀ c', Stored (run init ops) c' → N ∉ c'.names) ∧ wildOf N ∈ c.names ∧
           ∀ c', Stored (run init ops) c' → wildOf N ∈ c'.names → c'.exp ≤ c.exp)) := by
-  obtain ⟨c, hs, hfp, hd⟩ := resolve_sound_of_agree re (C17_agree_invariant ops hops) hN hr
+  obtain ⟨c, hs, hfp, hd⟩ := resolve_sound_of_agree re (C17_agree_invariant ops) hN hr
   refine ⟨c, hs, hfp, ?_, hd⟩
   rcases hd with ⟨hn, _⟩ | ⟨_, hn, _⟩
   · exact ⟨N, hn, Or.inl rfl⟩
   · exact ⟨wildOf N, hn, Or.inr rfl⟩
 
-example : GoodOp (.add ⟨1, [[42,46,101,120,97,109,112,108,101,46,111,114,103]], 100⟩) := by
-  intro n hn; simp at hn; subst hn; decide
-
 /-- `resolve` never answers `None` for a server name: the trie never names a
     fingerprint that is not stored (no dangling fingerprint). -/
 theorem C17_resolve_never_dangling (re : Bytes → Bytes → Bool) (ops : List Op)
-    (hops : ∀ op ∈ ops, GoodOp op) (N : Bytes) (hN : GoodHost N) :
+    (N : Bytes) (hN : GoodHost N) :
     resolve re (run init ops) (some N) ≠ .nothing := by
-  have h := C17_agree_invariant ops hops
+  have h := C17_agree_invariant ops
   intro hr
   simp only [resolve, lookup_agree re h hN] at hr
   cases h1 : (idxGet (run init ops) N).getLast? with
@@ -121,10 +128,10 @@ theorem C17_resolve_never_dangling (re : Bytes → Bytes → Bool) (ops : List O
 /-- **Default certificate only when nothing covers.** `resolve` falls back to
     `DEFAULT_CERTIFICATE` exactly when no stored certificate covers `N`. -/
 theorem C17_default_only_if_uncovered (re : Bytes → Bytes → Bool) (ops : List Op)
-    (hops : ∀ op ∈ ops, GoodOp op) (N : Bytes) (hN : GoodHost N) :
+    (N : Bytes) (hN : GoodHost N) :
     resolve re (run init ops) (some N) = .default ↔
       ¬ ∃ c, Stored (run init ops) c ∧ CertCovers c N := by
-  have h := C17_agree_invariant ops hops
+  have h := C17_agree_invariant ops
   constructor
   · intro hr
     simp only [resolve, lookup_agree re h hN] at hr
@@ -146,9 +153,9 @@ theorem C17_default_only_if_uncovered (re : Bytes → Bytes → Bool) (ops : Lis
   · intro hno
     cases hr : resolve re (run init ops) (some N) with
     | default => rfl
-    | nothing => exact absurd hr (C17_resolve_never_dangling re ops hops N hN)
+    | nothing => exact absurd hr (C17_resolve_never_dangling re ops N hN)
     | cert fp =>
-      obtain ⟨c, hs, _, hc, _⟩ := C17_resolve_sound re ops hops N hN fp hr
+      obtain ⟨c, hs, _, hc, _⟩ := C17_resolve_sound re ops N hN fp hr
       exact absurd ⟨c, hs, hc⟩ hno
 
 -- -------------------------------------------------------------- removal --
@@ -171,18 +178,17 @@ theorem resolve_cert_stored (re : Bytes → Bytes → Bool) (s : State) (N : Byt
     as long as no later op loads that fingerprint again, no server name at all
     (no restriction on `N`) is answered with it. -/
 theorem C17_removed_never_served (re : Bytes → Bytes → Bool) (ops1 ops2 : List Op) (fp : Fp)
-    (h1 : ∀ op ∈ ops1, GoodOp op) (h2 : ∀ op ∈ ops2, GoodOp op)
     (hn : ∀ op ∈ ops2, ¬ AddsFp fp op) (N : Bytes) :
     resolve re (run init (ops1 ++ [Op.remove fp] ++ ops2)) (some N) ≠ .cert fp := by
-  have ha1 := C17_agree_invariant ops1 h1
+  have ha1 := C17_agree_invariant ops1
   have hrm : run init (ops1 ++ [Op.remove fp]) = remove (run init ops1) fp := by
     rw [run_append]
     simp only [run, List.foldl_cons, List.foldl_nil]
-    exact step_eq_apply ha1 (.remove fp) trivial
+    exact step_eq_apply ha1 (.remove fp)
   have ha2 : Agree (remove (run init ops1) fp) := agree_remove ha1 fp
   have hnone : KMap.get? (run init (ops1 ++ [Op.remove fp] ++ ops2)).certs fp = none := by
     rw [run_append, hrm]
-    exact not_stored_run fp ops2 _ ha2 (by rw [get_certs_remove]; simp) h2 hn
+    exact not_stored_run fp ops2 _ ha2 (by rw [get_certs_remove]; simp) hn
   exact resolve_cert_stored re _ N fp hnone
 
 -- ------------------------------------------------------------- replace --
@@ -225,10 +231,11 @@ theorem covered_iff_stored (re : Bytes → Bytes → Bool) {s : State} (h : Agre
     `add new` then `remove old`; in the state between the two a server name that
     was answered with a stored certificate before still is (so a name covered
     before and after is covered throughout). -/
-theorem C17_replace_no_gap (re : Bytes → Bytes → Bool) (ops : List Op) (hops : ∀ op ∈ ops, GoodOp op)
-    (c : Cert) (hc : ∀ n ∈ c.names, GoodName n) (N : Bytes) (hN : GoodHost N)
+theorem C17_replace_no_gap (re : Bytes → Bytes → Bool) (ops : List Op)
+    (c0 c : Cert) (hp : prepare c0 = some c) (N : Bytes) (hN : GoodHost N)
     (hbefore : Covered re (run init ops) N) : Covered re (add (run init ops) c) N := by
-  have h := C17_agree_invariant ops hops
+  have hc := (prepare_good hp).2.2.2
+  have h := C17_agree_invariant ops
   have h' := agree_add h c hc
   rw [covered_iff_stored re h' hN]
   rw [covered_iff_stored re h hN] at hbefore
@@ -244,12 +251,13 @@ theorem C17_replace_no_gap (re : Bytes → Bytes → Bool) (ops : List Op) (hops
     `remove_certificate` loop — the trie still finds a fingerprint for every
     server name it found one for before the replace and finds one for after it. -/
 theorem C17_replace_no_gap_stepwise (re : Bytes → Bytes → Bool) (ops : List Op)
-    (hops : ∀ op ∈ ops, GoodOp op) (old : Option Fp) (c : Cert) (hc : ∀ n ∈ c.names, GoodName n)
+    (old : Option Fp) (c0 c : Cert) (hp : prepare c0 = some c)
     (N : Bytes) (hN : GoodHost N)
     (hbefore : TrieCovered re (run init ops) N)
     (hafter : TrieCovered re (replace (run init ops) old c) N) :
     ∀ s' ∈ replaceTrace (run init ops) old c, TrieCovered re s' N := by
-  have h := C17_agree_invariant ops hops
+  have hc := (prepare_good hp).2.2.2
+  have h := C17_agree_invariant ops
   intro s' hs'
   unfold replaceTrace at hs'
   unfold replace at hafter
@@ -338,12 +346,12 @@ theorem C17_strict_sni_exact (authority sni : Bytes) :
     `_partial`: the hypothesis `snapshot … = some ns` excludes the connections
     that were served the default certificate, see the counterexample below. -/
 theorem C17_strict_sni_partial (re : Bytes → Bytes → Bool) (ops : List Op)
-    (hops : ∀ op ∈ ops, GoodOp op) (N : Bytes) (hN : GoodHost N) (ns : List Bytes)
+    (N : Bytes) (hN : GoodHost N) (ns : List Bytes)
     (hsnap : snapshot re (run init ops) (some N) = some ns) (authority : Bytes)
     (hallow : routeAllowed true (some N) (some ns) authority = true) :
     ∃ c, Stored (run init ops) c ∧ resolve re (run init ops) (some N) = .cert c.fp ∧ CertCovers c N ∧
       ∃ name ∈ c.names, SniCovers (normName name) (hostOf authority) := by
-  have h := C17_agree_invariant ops hops
+  have h := C17_agree_invariant ops
   simp only [snapshot, namesForSni] at hsnap
   cases hl : domainLookup re (run init ops) N true with
   | none => simp [hl] at hsnap
@@ -359,7 +367,7 @@ theorem C17_strict_sni_partial (re : Bytes → Bytes → Bool) (ops : List Op)
         have hk : c.fp = kv.2 := h.keyed kv.2 c hg
         have hres : resolve re (run init ops) (some N) = .cert c.fp := by
           simp [resolve, hl, KMap.contains, hg, hk]
-        obtain ⟨c2, hs2, hfp2, hcov, _⟩ := C17_resolve_sound re ops hops N hN c.fp hres
+        obtain ⟨c2, hs2, hfp2, hcov, _⟩ := C17_resolve_sound re ops N hN c.fp hres
         have hc2 : c2 = c := by
           have : KMap.get? (run init ops).certs c2.fp = some c2 := hs2
           rw [hfp2, hk, hg] at this; cases this; rfl
@@ -386,26 +394,27 @@ theorem C17_strict_sni_counterexample :
       routeAllowed true (some N) (snapshot (fun _ _ => false) init (some N)) N = true := by
   decide
 
--- ------------------------------------------------ names outside the scope --
+-- ------------------------------------------------- regression examples --
 
-/-- names the hypotheses exclude do break the resolver model the way the real
-    code does: a leading dot or an unterminated `/` segment panics
-    (`assert_ne!` in `TrieNode::insert`), `""` is silently not indexed. -/
-theorem C17_bad_name_panics :
-    (run init [.add ⟨1, [[46,101,120,97,109,112,108,101,46,111,114,103]], 10⟩]).dead = true ∧
-    (run init [.add ⟨1, [[114,101,47]], 10⟩]).dead = true ∧
-    (run init [.add ⟨1, [[]], 10⟩]).dead = false := by
+-- formerly `C17_bad_name_panics` (finding certificate-name-panics-worker, fixed in /repo 8d9b64c):
+-- a leading dot or a `/` segment used to panic `TrieNode::insert`; such a certificate is now
+-- refused and the resolver is untouched; `""` is refused too.
+example :
+    (step init (.add ⟨1, [[46,101,120,97,109,112,108,101,46,111,114,103]], 10⟩)).2 = .err ∧
+    (step init (.add ⟨1, [[114,101,47]], 10⟩)).2 = .err ∧
+    (step init (.add ⟨1, [[]], 10⟩)).2 = .err ∧
+    (run init [.add ⟨1, [[46,101,120,97,109,112,108,101,46,111,114,103]], 10⟩,
+               .add ⟨1, [[114,101,47]], 10⟩]).dead = false := by
   decide
 
-/-- `Covers` is byte equality, as coded. A certificate whose name differs from
-    the (lower-case, relative-form) SNI only by ASCII case or by a trailing dot
-    is loaded but never served: the default certificate is presented. -/
-theorem C17_variant_name_counterexample :
+-- formerly `C17_variant_name_counterexample` (finding variant-name-not-served, fixed in /repo
+-- 2039ba1): "WWW.example.org" and "www.example.org." are stored as "www.example.org" and served.
+example :
     let www : Bytes := [119,119,119,46,101,120,97,109,112,108,101,46,111,114,103]
     resolve (fun _ _ => false)
-      (run init [.add ⟨1, [[87,87,87,46,101,120,97,109,112,108,101,46,111,114,103]], 10⟩,   -- "WWW.example.org"
-                 .add ⟨2, [www ++ [46]], 10⟩])                                                -- "www.example.org."
-      (some www) = .default := by
+      (run init [.add ⟨1, [[87,87,87,46,101,120,97,109,112,108,101,46,111,114,103]], 10⟩])
+      (some www) = .cert 1 ∧
+    resolve (fun _ _ => false) (run init [.add ⟨2, [www ++ [46]], 10⟩]) (some www) = .cert 2 := by
   decide
 
 -- --------------------------------------------------------- non-vacuity --
@@ -427,10 +436,7 @@ def noRe : Bytes → Bytes → Bool := fun _ _ => false
 
 def hist : List Op := [.add cWild, .add cWww, .add cWww2, .remove 3, .replace (some 1) cWildNew]
 
-theorem hist_good : ∀ op ∈ hist, GoodOp op := by
-  intro op hop
-  simp only [hist, List.mem_cons, List.not_mem_nil, or_false] at hop
-  rcases hop with rfl | rfl | rfl | rfl | rfl <;> first | trivial | (intro n hn; revert n hn; decide)
+example : prepare cWild = some cWild ∧ prepare cWww = some cWww := by decide
 
 example : wildOf nTest = nWild := by decide
 example : GoodHost nTest ∧ GoodName nWild := by decide
